@@ -116,9 +116,30 @@ let gen_arr r (k : int) : arr * string =
      Printf.sprintf "valid.%s.%s" (cls t) mode)
   end
 
+(* the element type is decided by the ARRAY type (the tool's table), never by the elemtype word of the datum header: every
+   fourth well-formed case carries another oid there (the real one of a type the table maps to a stand-in, e.g. 24 for
+   regproc[] 1008 -> oid; 0; a random one); seeded change C07-12 *)
+let dt_counter = ref 0
+let prev_valid : (byte list * z * string) option ref = ref None
 let run_dt ~tag ~s (v : byte list) (t : byte list) (oid : z) =
+  incr dt_counter;
+  let valid = String.length tag >= 6 && String.sub tag 0 6 = "valid." in
+  let v = if valid && !dt_counter mod 4 = 0 && List.length v >= 12 then
+      let w = [| 24; 0; 99999; 2205 |].((!dt_counter / 4) mod 4) in
+      List.mapi (fun i b -> if i >= 8 && i < 12 then byte_of_int ((w lsr (8 * (i - 8))) land 255) else b) v
+    else v in
   let m = c_res c_opt (m_DecodeType_array (gs v t) oid) in
-  emit ~fn:"DecodeTypeArr" ~tag ~s ~m [ hexf v; hexf t; zs oid ]
+  emit ~fn:"DecodeTypeArr" ~tag:(if valid && !dt_counter mod 4 = 0 then tag ^ ".hdr_elemtype" else tag) ~s ~m [ hexf v; hexf t; zs oid ];
+  (* two arrays decoded one after the other, the FIRST result looked at only after the second decode: results must not
+     share storage (seeded change C07-11: a package-level scratch slice reused between calls) *)
+  if valid && s <> "-" then begin
+    (match !prev_valid with
+     | Some (v0, oid0, s0) when !dt_counter mod 3 = 0 ->
+       let m0 = c_res c_opt (m_DecodeType_array (gs v0 []) oid0) in
+       emit ~fn:"DecodeTypeArrPair" ~tag:"valid.pair_hold_first" ~s:(s0 ^ ";" ^ s) ~m:(m0 ^ ";" ^ m) [ hexf v0; zs oid0; hexf v; zs oid ]
+     | _ -> ());
+    prev_valid := Some (v, oid, s)
+  end
 let run_da ~tag ~s (v : byte list) (t : byte list) (eoid : z) =
   let m = c_res c_val (m_decodeArray (gs v t) eoid) in
   emit ~fn:"decodeArray" ~tag ~s ~m [ hexf v; hexf t; zs eoid ]
